@@ -214,6 +214,19 @@ func init() {
 							q.A = setAssign(q.A, pick(r, []int{0, 6, 7}), pick(r, []TV{tvBool(true), {T: "other:struct"}, tvList(tvList())}))
 						case r.Chance(25):
 							q.A = setAssign(setAssign(q.A, 6, tvStr("a red b")), 7, tvInt("int", r.I64(5, 15)))
+						case r.Chance(25): // list-valued assignments, not in ascending order, with a repeated element: the
+							// caller's slices must come back as they were
+							t := pick(r, []string{"[]int64", "[]int64", "[]int", "[]int32", "[]uint64"})
+							et := t[2:]
+							mk := func(v int64) TV {
+								if et == "uint64" {
+									return tvUint(et, uint64(v))
+								}
+								return tvInt(et, v)
+							}
+							l := []TV{mk(r.I64(11, 40)), mk(r.I64(5, 15)), mk(r.I64(16, 30)), mk(r.I64(5, 10))}
+							l = append(l, l[1])
+							q.A = setAssign(setAssign(q.A, 6, tvSlice("[]string", tvStr("zz"), tvStr("a red"), tvStr("b"))), 7, tvSlice(t, l...))
 						}
 						c.Queries = append(c.Queries, q)
 					}
